@@ -53,10 +53,21 @@ package ethereum
 //@   ensures err == nil ==> req != nil && req.Amount != nil // C18.redeem-result
 //@   ensures err != nil ==> req == nil // C18.redeem-result
 
-//@ assume func DecodeTransaction
+// rlpExact(b): the byte string b is exactly ONE RLP value, no trailing bytes. rlp.DecodeBytes accepts nothing else
+// (go-ethereum: "input contains more than one value" otherwise); rlp.Decode from a reader would stop after the first value.
+// "The same external transaction can never back two trackers" rests on it: the tracker is named after the carried BYTES,
+// the checks after the DECODED transaction, so two byte strings decoding to one transaction must not both be accepted.
+//@ ghost func rlpExact(b string) bool
+//@ assume func github.com/ethereum/go-ethereum/rlp.DecodeBytes
+//@   modifies heap("types.Transaction")
+//@   ensures result == nil ==> rlpExact(str(arg0))
+// VERIFIED on the body (decoding goes through DecodeBytes): an accepted byte string is exactly one RLP value.
+//@ func DecodeTransaction
+//@   trustframe
 //@   modifies nothing
 //@   ensures err == nil ==> result0 != nil && fresh(result0)
 //@   ensures err != nil ==> result0 == nil
+//@   ensures err == nil ==> rlpExact(str(data))                                                             // C15.one-encoding
 
 //@ assume func VerifyLock
 //@   modifies nothing
